@@ -188,8 +188,13 @@ func runC17A(ctx *ev.Ctx, c govCase) {
 		ctx.Failf("open ledger: %v", err)
 	}
 	defer ch.Close()
-	bookkeeping := map[byte]bool{byte(scom.SYS_CURRENT_BLOCK): true, byte(scom.SYS_BLOCK_MERKLE_TREE): true, byte(scom.SYS_STATE_MERKLE_TREE): true,
-		byte(scom.DATA_STATE_MERKLE_ROOT): true, byte(scom.SYS_CROSS_STATES): true, byte(scom.SYS_CROSS_STATES_HASH): true}
+	// literal prefixes (not the constants of the code under test): 0x05 is the contract-storage namespace; the ledger's
+	// own records live under 0x10 current block, 0x13 block tree, 0x20 state tree, 0x21 state root, 0x22/0x23 cross states
+	const stStorage = 0x05
+	bookkeeping := map[byte]bool{0x10: true, 0x13: true, 0x20: true, 0x21: true, 0x22: true, 0x23: true}
+	if byte(scom.ST_STORAGE) != stStorage {
+		ctx.Failf("the contract-storage prefix of the node is %#x, the ledger format says 0x05", byte(scom.ST_STORAGE))
+	}
 	for bi, ops := range c.Blocks {
 		b := lworld.Roundtrip(ch.Build(govBlockTxs(ch, ops), lworld.BlockOpt{}))
 		before := lworld.SortedDump(ch.Store.VerifStateDump())
@@ -204,7 +209,7 @@ func runC17A(ctx *ev.Ctx, c govCase) {
 		hostile := 0
 		for k := range ws {
 			key := []byte(k)
-			if len(key) < 21 || key[0] != byte(scom.ST_STORAGE) {
+			if len(key) < 21 || key[0] != stStorage {
 				ctx.Failf("block %d: execution wrote key %x outside the contract-storage namespace", bi+1, key)
 			}
 			var addr common.Address
@@ -236,7 +241,7 @@ func runC17A(ctx *ev.Ctx, c govCase) {
 			if had && bytes.Equal(old, kv[1]) {
 				continue
 			}
-			if kv[0][0] == byte(scom.ST_STORAGE) {
+			if kv[0][0] == stStorage {
 				if v, ok := ws[string(kv[0])]; !ok || !bytes.Equal(v, kv[1]) {
 					ctx.Failf("block %d: committed contract-storage key %x is not in the block's write set (or differs)", bi+1, kv[0])
 				}
